@@ -20,6 +20,6 @@ func Yield(context.Context, string) {}
 func BeforeLock(context.Context, *sync.Mutex, string) {}
 
 // Fine-grained mode entry points: empty in regular builds (see hook_on.go).
-func YieldHere(string)                        {}
+func YieldHere(string)                         {}
 func BeforeLockFn(func() bool, func(), string) {}
-func Held(int)                                {}
+func Held(int)                                 {}
